@@ -83,8 +83,8 @@ def run(d, pids, jobs=os.environ.get("SEEDED_JOBS", "6")):
     (VERIF_REPO / VERIF_OUT), so neither /repo nor the committed evidence is touched."""
     d = os.path.abspath(d)
     name = os.path.basename(d)
-    wt = "/tmp/sr-" + name
-    out = "/tmp/so-" + name
+    wt = "/tmp/sr-%s-%d" % (name, os.getpid())
+    out = "/tmp/so-%s-%d" % (name, os.getpid())
     sh(["git", "-C", REPO, "worktree", "remove", "--force", wt])
     shutil.rmtree(out, ignore_errors=True)
     rc, o = sh(["git", "-C", REPO, "worktree", "add", "-q", wt, "HEAD"])
@@ -102,6 +102,8 @@ def run(d, pids, jobs=os.environ.get("SEEDED_JOBS", "6")):
                                stdout=subprocess.PIPE, stderr=subprocess.STDOUT, text=True, env=env, timeout=4 * 3600)
             rc, o = p.returncode, p.stdout
             lines = [l for l in o.splitlines() if l.startswith(("VIOLATION", "INCONCLUSIVE", "harness ", "  reproduced"))]
+            if rc != 0 and not any(l.startswith("VIOLATION") for l in lines):
+                open("/tmp/seeded-fail-%s-%s.log" % (name, pid), "w").write(o)
             runs[pid] = {"exit": rc, "detected": rc == 1 and any(l.startswith("VIOLATION") for l in lines),
                          "wall_s": round(time.time() - t0), "lines": [l[:300].replace(out, "/verif") for l in lines[:8]],
                          "verif_commit": sh(["git", "-C", VERIF, "rev-parse", "--short", "HEAD"])[1].strip()}
@@ -109,7 +111,9 @@ def run(d, pids, jobs=os.environ.get("SEEDED_JOBS", "6")):
             for l in lines[:5]:
                 print("   ", l[:220], flush=True)
     finally:
-        save_meta(d, m)
+        cur = load_meta(d)
+        cur.setdefault("checks", {}).update(runs)
+        save_meta(d, cur)
         sh(["git", "-C", REPO, "worktree", "remove", "--force", wt])
         shutil.rmtree(wt, ignore_errors=True)
         shutil.rmtree(out, ignore_errors=True)
